@@ -95,7 +95,7 @@ def check_case(case, ctx=None):
     try:
         sc, rv = obj.assess(ti.get_choices(), call_args)
     except Exception as e:
-        if type(e).__name__ == "MissingAddress" and gfi.has_empty_site(node, run_i):
+        if gfi.is_empty_sample_rejection(e, node, run_i):
             sc = None  # assess does not accept samples that omit non-executed code (finding assess_empty_sample, C01/C02)
             classes.append("assess:skipped-empty-site")
         else:
